@@ -15,7 +15,7 @@ VARIABLE cs
 
 T(s) == Text(s)
 PNames == <<"a", "b", "c">>
-DefaultOf(i) == CASE i = 1 -> Bin("+", LI(2), LI(3)) [] i = 2 -> LS(<<100>>) [] i = 3 -> LI(0)
+DefaultOf(i) == CASE i = 1 -> Bin("+", LI(2), LI(3)) [] i = 2 -> LS(<<100, 39, 92, 101>>) [] i = 3 -> LI(0)      \* (a string with a quote and a backslash in it)
 ArgOf(i) == CASE i = 1 -> LI(10) [] i = 2 -> Bin("+", Var("x"), LI(1)) [] i = 3 -> LS(<<113>>) [] i = 4 -> LI(40)
 
 Params(ar, defs) == [i \in 1..ar |-> IF i \in defs THEN ParamD(PNames[i], DefaultOf(i)) ELSE Param(PNames[i])]
@@ -36,7 +36,9 @@ MacroBody(bk, ar) ==
       [] bk = "nested" -> <<T(<<60>>), PrintS(Call("hh", <<Var("a")>>)), T(<<62>>)>> \o PrintParams(ar)
 Helper == Macro("hh", <<Param("v")>>, <<T(<<104>>), PrintS(Var("v"))>>)
 
-Forms == {"local", "self", "import", "from", "fromas", "rebind"}
+\* (localshadow / selfshadow / fromshadow: a library that has a macro of the same name is imported under an alias afterwards;
+\* the plain name and _self still mean the template's own macro)
+Forms == {"local", "self", "import", "from", "fromas", "rebind", "localshadow", "selfshadow", "fromshadow"}
 Sites == {"top", "loop", "block", "if", "include", "macro", "childblock"}
 
 \* the call expression in the given form
@@ -49,14 +51,18 @@ CallExpr(mn, form, as) ==
       [] form = "from"   -> Call(mn, as)
       [] form = "fromas" -> Call("qq", as)
       [] form = "rebind" -> Call(mn, as)
+      [] form = "localshadow" -> Call(mn, as)
+      [] form = "selfshadow" -> MCall("_self", mn, as)
+      [] form = "fromshadow" -> Call(mn, as)
 ImportStmt(mn, form) ==
     CASE form = "import" -> <<Import(LS(NT.t1), "L")>>
       [] form = "from"   -> <<From(LS(NT.t1), <<mn>>, <<mn>>)>>
       [] form = "fromas" -> <<From(LS(NT.t1), <<mn>>, <<"qq">>)>>
       [] form = "rebind" -> <<From(LS(NT.t3), <<mn>>, <<mn>>), From(LS(NT.t1), <<mn>>, <<mn>>)>>
+      [] form = "fromshadow" -> <<From(LS(NT.t1), <<mn>>, <<mn>>), Import(LS(NT.t3), "L")>>
       [] OTHER -> <<>>
 OtherLib(mn) == <<Macro(mn, <<Param("a"), Param("b"), Param("c")>>, <<T(<<79, 84, 72, 69, 82>>)>>)>>     \* prints OTHER
-IsLocalForm(form) == form \in {"local", "self"}
+IsLocalForm(form) == form \in {"local", "self", "localshadow", "selfshadow"}
 
 \* the caller's probe after the call: assignments in the body are invisible
 After == <<T(<<94>>), PrintS(Var("a")), T(<<124>>), PrintS(Var("w")), T(<<36>>)>>
@@ -66,6 +72,9 @@ ParamsOf(c) == IF "dk" \in DOMAIN c /\ c.dk = "spy"
                THEN [i \in 1..c.ar |-> IF i \in c.defs THEN ParamD(PNames[i], Spy("sp", "d" \o ToString(i), DefaultOf(i))) ELSE Param(PNames[i])]
                ELSE Params(c.ar, c.defs)
 Defs(c) == <<Helper, Macro(MName(c), ParamsOf(c), MacroBody(c.bk, c.ar))>>
+\* what stands before the call site
+Prefix(c, form) == IF form \in {"localshadow", "selfshadow"} THEN Defs(c) \o <<Import(LS(NT.t3), "L")>>
+                   ELSE IF IsLocalForm(form) THEN Defs(c) ELSE ImportStmt(MName(c), form)
 
 Site(c, form, callStmts) ==
     CASE c.site = "top"   -> callStmts \o After
@@ -86,14 +95,14 @@ Tp(c, form) ==
                 ELSE <<PrintS(ce)>> IN
     IF c.site = "include" THEN
         ("main" :> Site(c, form, <<>>))
-        @@ ("t2" :> (IF IsLocalForm(form) THEN Defs(c) ELSE ImportStmt(MName(c), form)) \o call)
+        @@ ("t2" :> Prefix(c, form) \o call)
         @@ ("t1" :> Defs(c)) @@ ("t3" :> OtherLib(MName(c)))
     ELSE IF c.site = "childblock" THEN
-        ("main" :> <<Extends(LS(NT.t4))>> \o (IF IsLocalForm(form) THEN Defs(c) ELSE ImportStmt(MName(c), form)) \o <<T(<<106>>)>> \o Site(c, form, call))
+        ("main" :> <<Extends(LS(NT.t4))>> \o Prefix(c, form) \o <<T(<<106>>)>> \o Site(c, form, call))
         @@ ("t4" :> <<T(<<91>>), Block("bb", <<T(<<100>>)>>), T(<<93>>)>>)
         @@ ("t1" :> Defs(c)) @@ ("t3" :> OtherLib(MName(c)))
     ELSE
-        ("main" :> (IF IsLocalForm(form) THEN Defs(c) ELSE ImportStmt(MName(c), form)) \o Site(c, form, call))
+        ("main" :> Prefix(c, form) \o Site(c, form, call))
         @@ ("t1" :> Defs(c)) @@ ("t3" :> OtherLib(MName(c)))
 
 \* sibling calls and calls from inside another macro only in the local forms (the
@@ -132,9 +141,32 @@ CaseOf(c) ==
                 : f \in {g \in Forms : FormApplies(c, g)}},
      expect |-> [ok |-> ref.ok, out |-> ref.out, err |-> ref.err, calls |-> [id \in {"d1", "d2"} |-> CountOf(ref.calls, id)]]]
 
-Init == cs \in {c \in Cases \cup NamedCases \cup SpyDefCases \cup ExprCases : Valid(c) /\ Ref(c, "local").ok}
+\* ---- macros that call themselves / each other to a depth of n: every level binds its own argument -------------------------
+\* (the expectation is written down directly: n, n-1, ... 0 separated by dots)
+DeepNs == {3, 31, 32, 33, 34, 64, 100}
+DeepForms == {"name", "self", "import", "pair"}
+DeepCases == {[deep |-> n, form |-> f] : n \in DeepNs, f \in DeepForms}
+Down(callself) == Macro("down", <<Param("n")>>, <<PrintS(Var("n")), T(<<46>>), If1(Bin(">", Var("n"), LI(0)), <<PrintS(callself)>>)>>)
+DeepTp(c) ==
+    CASE c.form = "name" -> ("main" :> <<Down(Call("down", <<Bin("-", Var("n"), LI(1))>>)), PrintS(Call("down", <<LI(c.deep)>>))>>)
+      [] c.form = "self" -> ("main" :> <<Down(MCall("_self", "down", <<Bin("-", Var("n"), LI(1))>>)), PrintS(MCall("_self", "down", <<LI(c.deep)>>))>>)
+      [] c.form = "import" -> ("main" :> <<Import(LS(NT.t1), "L"), PrintS(MCall("L", "down", <<LI(c.deep)>>))>>)
+                              @@ ("t1" :> <<Down(MCall("_self", "down", <<Bin("-", Var("n"), LI(1))>>))>>)
+      [] c.form = "pair" -> ("main" :> <<Macro("down", <<Param("n")>>, <<PrintS(Var("n")), T(<<46>>), If1(Bin(">", Var("n"), LI(0)), <<PrintS(Call("up", <<Bin("-", Var("n"), LI(1))>>))>>)>>),
+                                         Macro("up", <<Param("m")>>, <<PrintS(Call("down", <<Var("m")>>))>>), PrintS(Call("down", <<LI(c.deep)>>))>>)
+RECURSIVE CountDown(_)
+CountDown(n) == NatDigits(n) \o <<46>> \o (IF n = 0 THEN <<>> ELSE CountDown(n - 1))
+CaseOfDeep(c) ==
+    [prop |-> "C12", key |-> ToJson(c), tags |-> {"deep", "form:" \o c.form}, entry |-> "main", ctx |-> Ctx,
+     runs |-> {[label |-> "deep", tp |-> Sources(DeepTp(c), LMin), xcalls |-> [id \in {} |-> 0], again |-> 1]},
+     expect |-> [ok |-> TRUE, out |-> CountDown(c.deep), err |-> "", calls |-> [id \in {} |-> 0]]]
+\* on the model: for a depth the reference semantics reaches, it agrees with the formula
+DeepAgrees == \A f \in DeepForms : Render(World(DeepTp([deep |-> 2, form |-> f])), "main", Ctx).out = CountDown(2)
+ASSUME DeepAgrees
+
+Init == cs \in DeepCases \cup {c \in Cases \cup NamedCases \cup SpyDefCases \cup ExprCases : Valid(c) /\ Ref(c, "local").ok}
 Next == UNCHANGED cs
 Spec == Init /\ [][Next]_cs
-Emit == PrintT(ToJson(CaseOf(cs)))
-ModelOK == FormsAgree(cs)
+Emit == PrintT(ToJson(IF "deep" \in DOMAIN cs THEN CaseOfDeep(cs) ELSE CaseOf(cs)))
+ModelOK == "deep" \in DOMAIN cs \/ FormsAgree(cs)
 =============================================================================
